@@ -259,10 +259,10 @@ def replay_state(st: dict, out: dict, want_event: bool, want_rejects: bool) -> N
         if fingerprint(rel) != fp:
             V(["C20", "C09"], "a rejected request changed an existing relation", request=c)
         cnt["rejects_checked"] = cnt.get("rejects_checked", 0) + 1
-    if want_event:
+    if want_event or not same_shape:
         out["events"].append({"tree": full_tree(rel), "env": {"L": st["l1"], "T2": st["t2"]},
                               "rows": st["rows"], "bag": not st["ldet"],
-                              "checks": ["wf", "meta"] + (["den"] if (st["ldet"] or st["bdet"]) and same_shape and not st["kf2"] else []),
+                              "checks": ["wf", "meta"] + ([] if st["kf2"] else ["denbag", "denlist"]),
                               "case": case})
 
 
@@ -357,7 +357,7 @@ def worker(lines, ctx):
     return out
 
 
-CLAUSE_PROPS = {"wf": ["C14"], "den": ["C03", "C15"], "meta": ["C06"], "coh": ["C17"]}
+CLAUSE_PROPS = {"wf": ["C14", "C03"], "den": ["C03", "C15"], "denbag": ["C03", "C15"], "denlist": ["C03", "C15"], "meta": ["C06"], "coh": ["C17"]}
 CONFIGS = {
     "quick": [("MultiQuick.cfg", 3)],
     "thorough": [("MultiQuick.cfg", 1), ("MultiFull.cfg", 6), ("MultiDeep.cfg", 6)],
